@@ -206,3 +206,7 @@ mod tests {
         }
     ];
 }
+
+#[cfg(kani)]
+#[path = "/verif/kani/std_to_float.rs"]
+mod kani_verif;
